@@ -1,6 +1,7 @@
 package rules
 
 import (
+	"fmt"
 	"go/token"
 	"go/types"
 	"strings"
@@ -13,14 +14,15 @@ import (
 // ---------------------------------------------------------------- program facts (engine B)
 
 type progFacts struct {
-	c       *core.Ctx
-	funcs   []*ssa.Function
-	callers map[*ssa.Function][]ssa.CallInstruction // static call/go/defer sites per callee
-	closure map[*ssa.Function][]*ssa.MakeClosure    // closure creation sites
+	c          *core.Ctx
+	funcs      []*ssa.Function
+	callers    map[*ssa.Function][]ssa.CallInstruction // static call/go/defer sites per callee
+	closure    map[*ssa.Function][]*ssa.MakeClosure    // closure creation sites
+	fieldLoads map[string][]*ssa.UnOp                  // loads of a struct field, by struct type and field index (any object)
 }
 
 func facts(c *core.Ctx) *progFacts {
-	p := &progFacts{c: c, callers: map[*ssa.Function][]ssa.CallInstruction{}, closure: map[*ssa.Function][]*ssa.MakeClosure{}}
+	p := &progFacts{c: c, callers: map[*ssa.Function][]ssa.CallInstruction{}, closure: map[*ssa.Function][]*ssa.MakeClosure{}, fieldLoads: map[string][]*ssa.UnOp{}}
 	p.funcs = c.RepoFuncs()
 	for _, f := range p.funcs {
 		for _, b := range f.Blocks {
@@ -37,6 +39,10 @@ func facts(c *core.Ctx) *progFacts {
 				case *ssa.MakeClosure:
 					if fn, ok := x.Fn.(*ssa.Function); ok {
 						p.closure[fn] = append(p.closure[fn], x)
+					}
+				case *ssa.UnOp:
+					if fa, ok := x.X.(*ssa.FieldAddr); ok && x.Op == token.MUL {
+						p.fieldLoads[fieldKeyOf(fa)] = append(p.fieldLoads[fieldKeyOf(fa)], x)
 					}
 				}
 			}
@@ -144,6 +150,14 @@ func (p *progFacts) fateOf(v ssa.Value) errFate {
 			case *ssa.Store:
 				if x.Val != v {
 					continue
+				}
+				if fa, ok := x.Addr.(*ssa.FieldAddr); ok {
+					// the error is kept in a field (a writer that remembers its first failure): it is reported where that
+					// field is read and returned or sent - by any function of the repository (field-sensitive, object-
+					// insensitive, like the rest of this rule)
+					for _, ld := range p.fieldLoads[fieldKeyOf(fa)] {
+						follow(ld)
+					}
 				}
 				if a, ok := x.Addr.(*ssa.Alloc); ok {
 					for _, ar := range *a.Referrers() {
@@ -578,6 +592,55 @@ func surelyNonNilError(v ssa.Value) bool {
 			return false
 		default:
 			return false
+		}
+	}
+	return false
+}
+
+// fieldKeyOf names a struct field by the struct's type and the field's index.
+func fieldKeyOf(fa *ssa.FieldAddr) string {
+	t := fa.X.Type()
+	if pt, ok := t.Underlying().(*types.Pointer); ok {
+		t = pt.Elem()
+	}
+	return fmt.Sprintf("%s#%d", t.String(), fa.Field)
+}
+
+// stickyErrorField: every path to the block of a write whose error is kept in the field goes through a test of that
+// same field, on the side where it is nil - so that a write that failed is never followed by another write whose result
+// would overwrite the error kept.
+func stickyErrorField(fn *ssa.Function, field *ssa.FieldAddr, write *ssa.BasicBlock) bool {
+	key := fieldKeyOf(field)
+	for _, b := range fn.Blocks {
+		if len(b.Instrs) == 0 || len(b.Succs) != 2 {
+			continue
+		}
+		iff, ok := b.Instrs[len(b.Instrs)-1].(*ssa.If)
+		if !ok {
+			continue
+		}
+		bo, ok := iff.Cond.(*ssa.BinOp)
+		if !ok || (bo.Op != token.EQL && bo.Op != token.NEQ) {
+			continue
+		}
+		isFieldLoad := func(v ssa.Value) bool {
+			u, ok := v.(*ssa.UnOp)
+			if !ok || u.Op != token.MUL {
+				return false
+			}
+			fa, ok := u.X.(*ssa.FieldAddr)
+			return ok && fieldKeyOf(fa) == key
+		}
+		isNil := func(v ssa.Value) bool { k, ok := v.(*ssa.Const); return ok && k.IsNil() }
+		if !((isFieldLoad(bo.X) && isNil(bo.Y)) || (isFieldLoad(bo.Y) && isNil(bo.X))) {
+			continue
+		}
+		nilSide, other := b.Succs[0], b.Succs[1]
+		if bo.Op == token.NEQ {
+			nilSide, other = b.Succs[1], b.Succs[0]
+		}
+		if (nilSide == write || nilSide.Dominates(write)) && other != write && !other.Dominates(write) {
+			return true
 		}
 	}
 	return false
